@@ -15,8 +15,15 @@ use std::process::Command;
 // degenerate encodings named by the property
 // ------------------------------------------------------------------------------------------------
 
-pub const DEGEN: [&str; 7] =
-    ["empty-multipolygon", "polygon-with-empty-exterior", "empty-interior-ring", "repeated-vertices", "empty-part-first", "empty-part-last", "all-rings-doubled-vertices"];
+pub const DEGEN: [&str; 7] = [
+    "empty-multipolygon",
+    "polygon-with-empty-exterior",
+    "empty-interior-ring",
+    "repeated-vertices",
+    "empty-part-first",
+    "empty-part-last",
+    "all-rings-doubled-vertices",
+];
 
 pub fn degen_variant(mp: &MP, kind: &str) -> MP {
     let empty_poly = || Polygon::new(LineString::<f64>(vec![]), vec![]);
@@ -52,7 +59,9 @@ pub fn degen_variant(mp: &MP, kind: &str) -> MP {
         "all-rings-doubled-vertices" => MultiPolygon(
             mp.0.iter()
                 .map(|p| {
-                    let dup = |r: &LineString<f64>| LineString(r.0.iter().flat_map(|c| [*c, *c]).collect());
+                    let dup = |r: &LineString<f64>| {
+                        LineString(r.0.iter().flat_map(|c| [*c, *c]).collect())
+                    };
                     Polygon::new(dup(p.exterior()), p.interiors().iter().map(dup).collect())
                 })
                 .collect(),
@@ -71,10 +80,26 @@ pub fn degen_variant(mp: &MP, kind: &str) -> MP {
     }
 }
 
-fn degen_case(fam: &Family, a: u32, b: u32, kind: &str, side: u8, ft: Ft, loc: &mut Local) -> Vec<String> {
+fn degen_case(
+    fam: &Family,
+    a: u32,
+    b: u32,
+    kind: &str,
+    side: u8,
+    ft: Ft,
+    loc: &mut Local,
+) -> Vec<String> {
     let (pa, pb) = (&fam.m[a as usize], &fam.m[b as usize]);
-    let va = if side & 1 != 0 { degen_variant(pa, kind) } else { pa.clone() };
-    let vb = if side & 2 != 0 { degen_variant(pb, kind) } else { pb.clone() };
+    let va = if side & 1 != 0 {
+        degen_variant(pa, kind)
+    } else {
+        pa.clone()
+    };
+    let vb = if side & 2 != 0 {
+        degen_variant(pb, kind)
+    } else {
+        pb.clone()
+    };
     let n = n_edges(&va, &vb);
     let mut cl = vec![];
     for op in OPS {
@@ -83,7 +108,11 @@ fn degen_case(fam: &Family, a: u32, b: u32, kind: &str, side: u8, ft: Ft, loc: &
         match o.res {
             Err(msg) => {
                 loc.add("panics", 1);
-                cl.push(format!("C03 panic {}: {}", op_name(op), msg.chars().take(70).collect::<String>()));
+                cl.push(format!(
+                    "C03 panic {}: {}",
+                    op_name(op),
+                    msg.chars().take(70).collect::<String>()
+                ));
             }
             Ok(_) => {
                 if o.events > event_bound(n) {
@@ -97,7 +126,13 @@ fn degen_case(fam: &Family, a: u32, b: u32, kind: &str, side: u8, ft: Ft, loc: &
 
 fn sweep_degen(st: &Stats, fam: &Family, ft: Ft) {
     let n = fam.cx.noperands();
-    st.family(&format!("{}/degenerate-encodings/{} ({} kinds x 3 sides x {} pairs)", fam.cx.name, ft.name(), DEGEN.len(), n as u64 * n as u64));
+    st.family(&format!(
+        "{}/degenerate-encodings/{} ({} kinds x 3 sides x {} pairs)",
+        fam.cx.name,
+        ft.name(),
+        DEGEN.len(),
+        n as u64 * n as u64
+    ));
     (0..n).into_par_iter().for_each(|a| {
         let mut loc = Local::default();
         for b in 0..n {
@@ -128,7 +163,13 @@ fn sweep_degen(st: &Stats, fam: &Family, ft: Ft) {
 // scale scenarios (each in a child process with the default main-thread stack)
 // ------------------------------------------------------------------------------------------------
 
-pub const SCENARIOS: [&str; 5] = ["stack-left", "stack-right", "stack-cover", "sawtooth-box", "stack-stack"];
+pub const SCENARIOS: [&str; 5] = [
+    "stack-left",
+    "stack-right",
+    "stack-cover",
+    "sawtooth-box",
+    "stack-stack",
+];
 
 fn rect(x0: f64, y0: f64, x1: f64, y1: f64) -> Polygon<f64> {
     poly_from(&[(x0, y0), (x1, y0), (x1, y1), (x0, y1)], &[])
@@ -137,16 +178,35 @@ fn rect(x0: f64, y0: f64, x1: f64, y1: f64) -> Polygon<f64> {
 /// operands with about `edges` edges in total
 pub fn scenario_operands(name: &str, edges: usize) -> (MP, MP) {
     let n = (edges / 4).max(1);
-    let stack = |x0: f64, x1: f64| MultiPolygon((0..n).map(|i| rect(x0, 2.0 * i as f64, x1, 2.0 * i as f64 + 1.0)).collect::<Vec<_>>());
+    let stack = |x0: f64, x1: f64| {
+        MultiPolygon(
+            (0..n)
+                .map(|i| rect(x0, 2.0 * i as f64, x1, 2.0 * i as f64 + 1.0))
+                .collect::<Vec<_>>(),
+        )
+    };
     let top = 2.0 * n as f64;
     match name {
-        "stack-left" => (stack(0.0, 10.0), MultiPolygon(vec![rect(-1.0, -1.0, 0.5, top + 1.0)])),
-        "stack-right" => (stack(0.0, 10.0), MultiPolygon(vec![rect(9.5, -1.0, 11.0, top + 1.0)])),
-        "stack-cover" => (stack(0.0, 10.0), MultiPolygon(vec![rect(-1.0, -1.0, 11.0, top + 1.0)])),
+        "stack-left" => (
+            stack(0.0, 10.0),
+            MultiPolygon(vec![rect(-1.0, -1.0, 0.5, top + 1.0)]),
+        ),
+        "stack-right" => (
+            stack(0.0, 10.0),
+            MultiPolygon(vec![rect(9.5, -1.0, 11.0, top + 1.0)]),
+        ),
+        "stack-cover" => (
+            stack(0.0, 10.0),
+            MultiPolygon(vec![rect(-1.0, -1.0, 11.0, top + 1.0)]),
+        ),
         "stack-stack" => {
             let m = n / 2;
             let s = |x0: f64, x1: f64, off: f64| {
-                MultiPolygon((0..m.max(1)).map(|i| rect(x0, 2.0 * i as f64 + off, x1, 2.0 * i as f64 + 1.0 + off)).collect::<Vec<_>>())
+                MultiPolygon(
+                    (0..m.max(1))
+                        .map(|i| rect(x0, 2.0 * i as f64 + off, x1, 2.0 * i as f64 + 1.0 + off))
+                        .collect::<Vec<_>>(),
+                )
             };
             (s(0.0, 10.0, 0.0), s(5.0, 15.0, 0.5))
         }
@@ -159,7 +219,10 @@ pub fn scenario_operands(name: &str, edges: usize) -> (MP, MP) {
                 pts.push((i as f64 + 0.5, 2.0));
             }
             pts.push((0.0, 1.0));
-            (MultiPolygon(vec![poly_from(&pts, &[])]), MultiPolygon(vec![rect(-1.0, 1.5, teeth as f64 + 1.0, 3.0)]))
+            (
+                MultiPolygon(vec![poly_from(&pts, &[])]),
+                MultiPolygon(vec![rect(-1.0, 1.5, teeth as f64 + 1.0, 3.0)]),
+            )
         }
         _ => panic!("unknown scenario {name}"),
     }
@@ -176,10 +239,16 @@ pub fn scenario_child(name: &str, edges: usize, op: &str, ft: &str) -> i32 {
     let t0 = std::time::Instant::now();
     let (polys, verts) = if ft == "f32" {
         let r = to32(&a).boolean(&to32(&b), op);
-        (r.0.len(), r.0.iter().map(|p| p.exterior().0.len()).sum::<usize>())
+        (
+            r.0.len(),
+            r.0.iter().map(|p| p.exterior().0.len()).sum::<usize>(),
+        )
     } else {
         let r = a.boolean(&b, op);
-        (r.0.len(), r.0.iter().map(|p| p.exterior().0.len()).sum::<usize>())
+        (
+            r.0.len(),
+            r.0.iter().map(|p| p.exterior().0.len()).sum::<usize>(),
+        )
     };
     println!(
         "SCENARIO-OK name={name} edges={n} op={} ft={ft} events={} polygons={polys} exterior_vertices={verts} wall_s={:.2}",
@@ -190,7 +259,13 @@ pub fn scenario_child(name: &str, edges: usize, op: &str, ft: &str) -> i32 {
     0
 }
 
-fn run_scenario(name: &str, edges: usize, op: &str, ft: &str, limit_s: u64) -> Result<String, String> {
+fn run_scenario(
+    name: &str,
+    edges: usize,
+    op: &str,
+    ft: &str,
+    limit_s: u64,
+) -> Result<String, String> {
     let exe = std::env::current_exe().unwrap();
     let out = Command::new("timeout")
         .arg(format!("{limit_s}"))
@@ -201,7 +276,11 @@ fn run_scenario(name: &str, edges: usize, op: &str, ft: &str, limit_s: u64) -> R
     let so = String::from_utf8_lossy(&out.stdout).to_string();
     let se = String::from_utf8_lossy(&out.stderr).to_string();
     if out.status.success() && so.contains("SCENARIO-OK") {
-        Ok(so.lines().find(|l| l.contains("SCENARIO-OK")).unwrap().to_string())
+        Ok(so
+            .lines()
+            .find(|l| l.contains("SCENARIO-OK"))
+            .unwrap()
+            .to_string())
     } else {
         use std::os::unix::process::ExitStatusExt;
         let why = if let Some(sig) = out.status.signal() {
@@ -213,7 +292,15 @@ fn run_scenario(name: &str, edges: usize, op: &str, ft: &str, limit_s: u64) -> R
         } else {
             format!("exit status {:?}", out.status.code())
         };
-        Err(format!("{why}: {}", se.lines().last().unwrap_or("").chars().take(100).collect::<String>()))
+        Err(format!(
+            "{why}: {}",
+            se.lines()
+                .last()
+                .unwrap_or("")
+                .chars()
+                .take(100)
+                .collect::<String>()
+        ))
     }
 }
 
@@ -236,7 +323,10 @@ fn sweep_scenarios(st: &Stats, sizes: &[usize], limit_s: u64) {
         }
     }
     st.family(&format!("scale scenarios {:?} x sizes {:?} x 4 operations x f64/f32, one child process each (8 MiB main stack)", SCENARIOS, sizes));
-    let results: Vec<_> = jobs.par_iter().map(|&(name, sz, op, ft)| (name, sz, op, ft, run_scenario(name, sz, op, ft, limit_s))).collect();
+    let results: Vec<_> = jobs
+        .par_iter()
+        .map(|&(name, sz, op, ft)| (name, sz, op, ft, run_scenario(name, sz, op, ft, limit_s)))
+        .collect();
     for (name, sz, op, ft, r) in results {
         st.state(true);
         st.trans(1);
@@ -264,18 +354,36 @@ pub fn replay(case: &Value, verbose: bool) -> Vec<String> {
         "degen" => {
             let fam = family_cached(case["family"].as_str().unwrap());
             let mut loc = Local::default();
-            let (a, b) = (case["a"].as_u64().unwrap() as u32, case["b"].as_u64().unwrap() as u32);
+            let (a, b) = (
+                case["a"].as_u64().unwrap() as u32,
+                case["b"].as_u64().unwrap() as u32,
+            );
             let kind = case["variant"].as_str().unwrap();
             let side = case["side"].as_u64().unwrap() as u8;
             if verbose {
-                println!("A = {} variant {kind} on side mask {side}", hex(&fam.m[a as usize]));
+                println!(
+                    "A = {} variant {kind} on side mask {side}",
+                    hex(&fam.m[a as usize])
+                );
                 println!("B = {}", hex(&fam.m[b as usize]));
             }
-            degen_case(&fam, a, b, kind, side, ft_from(case["ft"].as_str().unwrap()), &mut loc)
+            degen_case(
+                &fam,
+                a,
+                b,
+                kind,
+                side,
+                ft_from(case["ft"].as_str().unwrap()),
+                &mut loc,
+            )
         }
         "scenario" => {
-            let (name, sz, op, ft) =
-                (case["name"].as_str().unwrap(), case["edges"].as_u64().unwrap() as usize, case["op"].as_str().unwrap(), case["ft"].as_str().unwrap());
+            let (name, sz, op, ft) = (
+                case["name"].as_str().unwrap(),
+                case["edges"].as_u64().unwrap() as usize,
+                case["op"].as_str().unwrap(),
+                case["ft"].as_str().unwrap(),
+            );
             match run_scenario(name, sz, op, ft, case["limit_s"].as_u64().unwrap_or(300)) {
                 Ok(l) => {
                     if verbose {
@@ -335,17 +443,63 @@ pub fn run(tier: &str) -> i32 {
         sweep_degen(&st, &Family::new("G32"), Ft::F64);
         sweep_degen(&st, &Family::new("O21"), Ft::F64);
     }
-    sweep_table(&st, "C03", &p_spec(9, seed, 1.0, false), Ft::F64, &want, if thorough { PairSet::All } else { PairSet::WithTriangle });
-    sweep_table(&st, "C03", &p_spec(9, seed, 1.0, true), Ft::F32, &want, PairSet::WithTriangle);
-    sweep_table(&st, "C03", &p_spec(9, seed, 1.1 * 1048576.0, false), Ft::F64, &want, PairSet::TrianglesOnly);
-    sweep_table(&st, "C03", &p_spec(9, seed, 1e-3, false), Ft::F64, &want, PairSet::TrianglesOnly);
+    sweep_table(
+        &st,
+        "C03",
+        &p_spec(9, seed, 1.0, false),
+        Ft::F64,
+        &want,
+        if thorough {
+            PairSet::All
+        } else {
+            PairSet::WithTriangle
+        },
+    );
+    sweep_table(
+        &st,
+        "C03",
+        &p_spec(9, seed, 1.0, true),
+        Ft::F32,
+        &want,
+        PairSet::WithTriangle,
+    );
+    sweep_table(
+        &st,
+        "C03",
+        &p_spec(9, seed, 1.1 * 1048576.0, false),
+        Ft::F64,
+        &want,
+        PairSet::TrianglesOnly,
+    );
+    sweep_table(
+        &st,
+        "C03",
+        &p_spec(9, seed, 1e-3, false),
+        Ft::F64,
+        &want,
+        PairSet::TrianglesOnly,
+    );
     if thorough {
-        sweep_table(&st, "C03", &p_spec(16, seed, 1.0, false), Ft::F64, &want, PairSet::TrianglesOnly);
+        sweep_table(
+            &st,
+            "C03",
+            &p_spec(16, seed, 1.0, false),
+            Ft::F64,
+            &want,
+            PairSet::TrianglesOnly,
+        );
     }
     sweep_table(&st, "C03", &l_spec("L2i"), Ft::F64, &want, PairSet::All);
     sweep_table(&st, "C03", &l_spec("L2s"), Ft::F64, &want, PairSet::All);
     if thorough {
-        sweep_table(&st, "C03", &l_spec("L2i21"), Ft::F64, &want, PairSet::WithTriangle);
+        sweep_table(
+            &st,
+            "C03",
+            &l_spec("L2i21"),
+            Ft::F64,
+            &want,
+            PairSet::WithTriangle,
+        );
     }
     if thorough {
         sweep_scenarios(&st, &[10_000, 100_000, 1_000_000], 900);
@@ -372,7 +526,10 @@ pub fn run(tier: &str) -> i32 {
 pub fn merge_evidence(prop: &str, tier: &str, files: &[String]) -> i32 {
     let mut parts: Vec<Value> = vec![];
     for f in files {
-        match std::fs::read_to_string(f).ok().and_then(|s| serde_json::from_str::<Value>(&s).ok()) {
+        match std::fs::read_to_string(f)
+            .ok()
+            .and_then(|s| serde_json::from_str::<Value>(&s).ok())
+        {
             Some(v) => parts.push(v),
             None => {
                 println!("MACHINERY: evidence part {f} missing or unparsable");
@@ -380,13 +537,29 @@ pub fn merge_evidence(prop: &str, tier: &str, files: &[String]) -> i32 {
             }
         }
     }
-    let sum = |k: &str| parts.iter().map(|p| p["coverage"][k].as_u64().unwrap_or(0)).sum::<u64>();
+    let sum = |k: &str| {
+        parts
+            .iter()
+            .map(|p| p["coverage"][k].as_u64().unwrap_or(0))
+            .sum::<u64>()
+    };
     let mut cov = parts[0]["coverage"].clone();
-    for k in ["states", "transitions", "traces_validated_against_impl", "evaluations", "distinct_nontrivial"] {
+    for k in [
+        "states",
+        "transitions",
+        "traces_validated_against_impl",
+        "evaluations",
+        "distinct_nontrivial",
+    ] {
         cov[k] = json!(sum(k));
     }
-    cov["exhaustive"] = json!(parts.iter().all(|p| p["coverage"]["exhaustive"].as_bool().unwrap_or(false)));
-    cov["build_flavours"] = json!(parts.iter().map(|p| p["coverage"]["build_flavour"].clone()).collect::<Vec<_>>());
+    cov["exhaustive"] = json!(parts
+        .iter()
+        .all(|p| p["coverage"]["exhaustive"].as_bool().unwrap_or(false)));
+    cov["build_flavours"] = json!(parts
+        .iter()
+        .map(|p| p["coverage"]["build_flavour"].clone())
+        .collect::<Vec<_>>());
     cov["per_flavour"] = json!(parts
         .iter()
         .map(|p| json!({"flavour": p["coverage"]["build_flavour"], "families": p["coverage"]["families"], "counters": p["coverage"]["counters"],
